@@ -1,13 +1,13 @@
 #!/bin/bash
-# Build the framework from files on disk only (offline): catalogue, workers for every configuration,
-# syntax-check of every specification module.
+# Build the framework from files on disk only (offline): catalogue, documented examples, workers for every
+# configuration used by the quick checks, syntax-check of every specification module.
 set -e
 cd "$(dirname "$0")/.."
 export CARGO_NET_OFFLINE=true
 mkdir -p work evidence
 python3 tools/catalogue.py
 python3 tools/gen_formats.py
-cp -f /repo/Cargo.lock harness/Cargo.lock.repo 2>/dev/null || true
+python3 tools/harvest_docs.py
 for m in spec/*.tla; do
   (cd spec && tla-sany "$(basename "$m")" > ../work/sany.log 2>&1) || { cat work/sany.log; exit 1; }
 done
@@ -17,5 +17,7 @@ sys.path.insert(0, "tools")
 import vlib
 for cfg in ["default", "compact", "rf", "crf", "pow2", "radix", "format"]:
     vlib.build_worker(cfg)
+for cfg in ["default", "rf"]:
+    vlib.build_worker(cfg, "dbg")
 PY
 echo "setup ok"
